@@ -18,9 +18,11 @@
 #include <pika/threading_base/thread_pool_base.hpp>
 #include <pika/timing/steady_clock.hpp>
 
+#include <atomic>
 #include <cstddef>
 #include <exception>
 #include <functional>
+#include <memory>
 #include <mutex>
 #include <utility>
 
@@ -178,12 +180,19 @@ namespace pika {
         }
     }
 
-    static void resume_thread(threads::detail::thread_id_type const& id)
+    // Exit callback registered by thread::join(). The joining thread waits for the flag, not just
+    // for the wake-up: a suspension may return because of a wake-up that was aimed at an earlier
+    // wait of the same thread (e.g. a timed wait that was notified while the thread was running).
+    // The reference keeps the joining thread's id valid until the callback has been run.
+    static void resume_thread(threads::detail::thread_id_ref_type const& id,
+        std::shared_ptr<std::atomic<bool>> const& done)
     {
 #if defined(PIKA_VERIF)
-        PIKA_VERIF_POINT(1305, id.get());    // exit callback of a join runs (target side, unlocked)
+        PIKA_VERIF_POINT(1305, id.noref().get());    // exit callback of a join runs (target side, unlocked)
 #endif
-        threads::detail::set_thread_state(id, threads::detail::thread_schedule_state::pending);
+        done->store(true, std::memory_order_release);
+        threads::detail::set_thread_state(
+            id.noref(), threads::detail::thread_schedule_state::pending);
     }
 
     void thread::join()
@@ -211,15 +220,21 @@ namespace pika {
         PIKA_VERIF_POINT(1301, id_.noref().get(), reinterpret_cast<std::uint64_t>(this_id.get()));
 #endif
         // register callback function to be called when thread exits
-        if (threads::detail::add_thread_exit_callback(
-                id_.noref(), util::detail::bind_front(&resume_thread, this_id)))
+        auto done = std::make_shared<std::atomic<bool>>(false);
+        if (threads::detail::add_thread_exit_callback(id_.noref(),
+                util::detail::bind_front(
+                    &resume_thread, threads::detail::thread_id_ref_type(this_id), done)))
         {
             // wait for thread to be terminated
             detail::unlock_guard ul(l);
 #if defined(PIKA_VERIF)
             PIKA_VERIF_POINT(1302, this_id.get(), 1);    // callback accepted, about to suspend
 #endif
-            this_thread::suspend(threads::detail::thread_schedule_state::suspended, "thread::join");
+            while (!done->load(std::memory_order_acquire))
+            {
+                this_thread::suspend(
+                    threads::detail::thread_schedule_state::suspended, "thread::join");
+            }
 #if defined(PIKA_VERIF)
             PIKA_VERIF_POINT(1303, this_id.get());    // suspension returned
 #endif
